@@ -37,8 +37,24 @@ vt_proof! { unwind = 10; fn c23_decode_key_text_blob() {
     else { data[0] = 0x21; let r = core::mem::ManuallyDrop::new(decode_key(&data[..n])); if let Ok((_, used)) = &*r { assert!(*used <= n, "role=decode_key_consumes_within_input"); } else { kani::cover!(n == 8, "w:blob_without_terminator"); } }
 }}
 
-// @vt prop=C23 tier=quick bound="RecordView over arbitrary record bytes of 2..=10 bytes, schema (int4, text, int2, blob): is_null, every getter of every column" outside="longer records; other schemas" timeout=1200 mem=30
-vt_proof! { unwind = 12; fn c23_record_view_arbitrary_bytes() {
+// @vt prop=C23 tier=quick bound="RecordView over arbitrary record bytes of 2..=9 bytes, schema (int4, blob): is_null and both getters" outside="longer records; other schemas (thorough: 4 columns)" timeout=1200 mem=16
+vt_proof! { unwind = 11; fn c23_record_view_arbitrary_bytes() {
+    let schema = core::mem::ManuallyDrop::new(schema_of(&[DataType::Int4, DataType::Blob]));
+    let data: [u8; 9] = kani::any();
+    let n: usize = kani::any(); kani::assume(n >= 2 && n <= 9);
+    let view = core::mem::ManuallyDrop::new(RecordView::new(&data[..n], &schema));
+    if let Ok(v) = &*view {
+        kani::cover!(true, "w:view_constructed");
+        let _ = v.is_null(0); let _ = v.is_null(1);
+        let a = core::mem::ManuallyDrop::new(v.get_int4(0));
+        let d = core::mem::ManuallyDrop::new(v.get_blob(1));
+        if let Ok(x) = &*d { assert!(x.len() <= n, "role=blob_slice_within_record"); }
+        kani::cover!(a.is_ok() && d.is_ok(), "w:some_getters_succeed");
+    }
+}}
+
+// @vt prop=C23 tier=thorough bound="RecordView over arbitrary record bytes of 2..=10 bytes, schema (int4, text, int2, blob): is_null, every getter of every column" outside="longer records; other schemas" timeout=3600 mem=44
+vt_proof! { unwind = 12; fn c23_record_view_arbitrary_bytes_4col() {
     let schema = core::mem::ManuallyDrop::new(schema_of(&[DataType::Int4, DataType::Text, DataType::Int2, DataType::Blob]));
     let data: [u8; 10] = kani::any();
     let n: usize = kani::any(); kani::assume(n >= 2 && n <= 10);
@@ -86,4 +102,30 @@ vt_proof! { unwind = 12; fn c23_catalog_constraint_decoder() {
     else if t == 3 { data[0] = 3; go!() } else if t == 4 { data[0] = 4; go!() } else if t == 5 { data[0] = 5; go!() }
     else { data[0] = 9; let r = core::mem::ManuallyDrop::new(deserialize_constraint(&data[..n], 0)); assert!(r.is_err() , "role=unknown_constraint_tag_is_an_error"); }
     kani::cover!(t == 3 && n == 6, "w:foreign_key_with_one_trailing_byte");
+}}
+
+// @vt prop=C23 tier=quick feat=sp bound="LeafNode::value_at / value_len_at / key_at on a leaf page whose slot 0 points at a cell with a 2-byte key followed by 9 ARBITRARY bytes (any varint, incl. 9-byte forms encoding lengths up to 2^64-1); LeafNodeMut::free_space on an arbitrary header" outside="arbitrary slot offsets (symbolic page offsets); other accessors" timeout=900 mem=16
+vt_proof! { unwind = 4; fn c23_leaf_accessors_corrupt_cell() {
+    use turdb::btree::{LeafNode, LeafNodeMut};
+    let mut page = [0u8; turdb::storage::PAGE_SIZE];
+    page[0] = 0x02; page[2] = 1; page[4] = 32; page[6] = 0xF0; page[7] = 0x01; // leaf, 1 cell, free_start 32, free_end 496
+    let off = 496usize;
+    page[24] = 1; page[25] = 2; page[28] = (off & 0xFF) as u8; page[29] = (off >> 8) as u8; page[30] = 2; // slot 0: prefix, offset, key_len 2
+    page[off] = 1; page[off + 1] = 2;
+    let v: [u8; 9] = kani::any();
+    page[off + 2..off + 11].copy_from_slice(&v);
+    let leaf = core::mem::ManuallyDrop::new(LeafNode::from_page(&page));
+    if let Ok(l) = &*leaf {
+        let k = core::mem::ManuallyDrop::new(l.key_at(0)); assert!(k.is_ok(), "role=key_readable");
+        let r = core::mem::ManuallyDrop::new(l.value_at(0));
+        let n = core::mem::ManuallyDrop::new(l.value_len_at(0));
+        if let Ok(x) = &*r { assert!(x.len() <= 14, "role=value_slice_within_page"); kani::cover!(x.len() == 3, "w:some_value_decodes"); }
+        kani::cover!(r.is_err(), "w:corrupt_length_rejected");
+        let _ = n;
+    }
+    // header with arbitrary free_start / free_end
+    let h: [u8; 4] = kani::any();
+    page[4] = h[0]; page[5] = h[1]; page[6] = h[2]; page[7] = h[3];
+    let m = core::mem::ManuallyDrop::new(LeafNodeMut::from_page(&mut page));
+    if let Ok(l) = &*m { let _ = l.free_space(); }
 }}
